@@ -113,8 +113,22 @@ type ShapeGroupInline struct {
 	S          string
 }
 
+// the first member of a group is consumed inline from a single value: the text it leaves in the (shared) node is
+// what the next member of the group sees ("b=//m=29" is accepted as b="//", m=29)
+type ShapeGroupInlineFirst struct {
+	B string `hash:"param:b,group,length:2,inline"`
+	M int8   `hash:"param:m,group"`
+	S string `hash:"length:2"`
+}
+
+// strings given to Unmarshal for particular hand shapes (besides the ones Marshal writes)
+var handInputs = map[reflect.Type][]string{
+	reflect.TypeOf(ShapeGroupInlineFirst{}): {"b=//m=29$zB", "b=//,m=29$zB", "b=//$zB", "m=29,b=//$zB", "b=//m=29,m=3$zB", "b=/$zB", "b=//m=29", "b=//m=$zB", "b=//b=//$zB", "b=//m=29x$zB"},
+	reflect.TypeOf(ShapeGroupInline{}):      {"$1$a=3,v=xy$s", "$1$v=xya=3$s", "$1$v=xy,a=3$s", "$1$a=3v=xy$s", "$1$v=xyz,a=3$s", "$1$v=xy$s"},
+}
+
 var handShapes = []reflect.Type{
-	reflect.TypeOf(ShapeGroupInline{}),
+	reflect.TypeOf(ShapeGroupInline{}), reflect.TypeOf(ShapeGroupInlineFirst{}),
 	reflect.TypeOf(ShapeArrLen{}),
 	reflect.TypeOf(ShapeEmbFirst{}), reflect.TypeOf(ShapeEmbLast{}), reflect.TypeOf(ShapeEmbTwo{}), reflect.TypeOf(ShapeEmbDeep{}),
 	reflect.TypeOf(ShapeEmbVal{}), reflect.TypeOf(ShapeEmbPtr{}), reflect.TypeOf(ShapeShadow{}), reflect.TypeOf(ShapeText{}),
@@ -145,6 +159,9 @@ func fillAny(r *rng, v reflect.Value, wild bool) {
 			}
 		}
 		f := &gField{name: sf.Name, typ: sf.Type, length: -1}
+		if i := strings.Index(sf.Tag.Get("hash"), "length:"); i >= 0 && !wild {
+			fmt.Sscanf(sf.Tag.Get("hash")[i+len("length:"):], "%d", &f.length)
+		}
 		if sf.Name == "HashPrefix" && fv.Kind() == reflect.String {
 			fv.SetString(lexPrefixes[r.intn(len(lexPrefixes))])
 			continue
@@ -413,6 +430,13 @@ func corrCodec(prop string, outDir string, seed uint64, tier string, withEdits b
 				p := reflect.New(tc.t)
 				fillAny(r, p.Elem(), k%3 == 0)
 				doValue(tc, p, "hand")
+			}
+			for _, h := range handInputs[tc.t] {
+				if withEdits {
+					editCasesOf(rep, r, tc, h, unmarshalCase, false)
+				} else {
+					unmarshalCase(tc, h, "hand_input")
+				}
 			}
 		default:
 			// shipped layouts: values obtained from real hashes, plus random field contents
